@@ -26,6 +26,7 @@ def show(t):
 
 
 def body(c):
+    c.spec_cases_replayed = True
     rng = random.Random(c.seed)
     path = os.path.join(common.VERIF, "out", "cfg", "HS.cfg")
     leaves0 = {"None", "True", "False", "i0", "i1", "f0", "f1", "fm0", "sa", "sb", "ba", "se"}
